@@ -82,6 +82,12 @@ func (c *fixedClient) Do(req *http.Request) (*http.Response, error) {
 }
 func (c *fixedClient) CloseIdleConnections() {}
 
+// underErr: an error value with an Underlying() method (what getErrno follows first)
+type underErr struct{ err error }
+
+func (u underErr) Error() string     { return "under: " + u.err.Error() }
+func (u underErr) Underlying() error { return u.err }
+
 type timeoutErr struct{}
 
 func (timeoutErr) Error() string   { return "timeout" }
@@ -109,6 +115,8 @@ func buildErr(shape string) error {
 			err = &url.Error{Op: "Get", URL: "http://x/", Err: err}
 		case "W":
 			err = pkgerrors.WithStack(err)
+		case "N":
+			err = underErr{err}
 		}
 	}
 	return err
@@ -251,10 +259,13 @@ func gen(r *vh.Rand, tier string) []string {
 		}
 		out = append(out, fmt.Sprintf("shoot %s %d %s %s %s", vh.B(r.Chance(3, 4)), r.Intn(5), vh.B(r.Bool()), vh.HexS(tag), vh.HexS(p.String())))
 	}
-	wr := []string{"O", "S", "U", "W"}
+	wr := []string{"O", "S", "U", "W", "N", "O", "S", "U", "W"}
 	for i := 0; i < n; i++ {
 		k := r.Intn(5)
 		var t []string
+		for j := r.Intn(4) - 1; j > 0; j-- { // an Underlying() chain on top, as stackerr builds it
+			t = append(t, "N")
+		}
 		for j := 0; j < k; j++ {
 			t = append(t, r.Pick(wr))
 		}
